@@ -1002,6 +1002,12 @@ C       IF (NMAX.GT.NPN1) PRINT 9000,NMAX,NPN1
  9000 FORMAT(' NMAX = ',I2,', i.e., greater than ',I3)
       TB=TA*DSQRT(MRR*MRR+MRI*MRI)
       TB=DMAX1(TB,DFLOAT(NMAX))
+C  ARGUMENTS BEYOND ANY WORK ARRAY (ALSO INFINITE OR NAN) WOULD OVERFLOW
+C  THE INTEGER STARTING ORDERS BELOW BEFORE THEY ARE COMPARED
+      IF (.NOT.(TA.LT.1D6.AND.TB.LT.1D6)) THEN
+         PPI=-1D0
+         RETURN
+      ENDIF
       NNMAX1=1.2D0*DSQRT(DMAX1(TA,DFLOAT(NMAX)))+3D0
       NNMAX2=(TB+4D0*(TB**0.33333D0)+1.2D0*DSQRT(TB))
       NNMAX2=NNMAX2-NMAX+5
